@@ -84,7 +84,7 @@ def check_laws(case):
 
 @st.composite
 def st_laws(draw):
-    spec = draw(st.one_of(gen.st_dyadic_cone(), gen.st_dyadic_cone(), gen.st_int_cone(),
+    spec = draw(st.one_of(gen.st_dyadic_cone(), gen.st_dyadic_cone(), gen.st_int_cone(), gen.st_skew_cone(),
                           st.sampled_from([{"kind": "comp", "m": 2}, {"kind": "comp", "m": 3}, {"kind": "comp", "m": 4},
                                            {"kind": "c3d", "type": "right"}])))
     m = gen.spec_dim(spec)
